@@ -285,6 +285,62 @@ def expected(case):
     return [(k, v[0], v[1]) for k, v in best.items()], info
 
 
+CLI_FLAG = {"maxquant": "--mq_evidence", "native": "--perc_evidence", "mokapot": "--perc_evidence",
+            "fragpipe": "--fragpipe_psm", "sage": "--sage_results", "diann": "--diann_reports"}
+
+
+def run_cli(case):
+    """the real command line on the rendered file set (digest maps handed over with --peptide_protein_map);
+    returns {"groups": [[protein...]...]} read from the written table, {"err": "no_ranked_groups"} for the
+    degenerate run in which no group has evidence, or {"exc": ...}"""
+    import subprocess
+
+    st = method_score_type(case["method"])
+    fmt, _ = fmt_of(st, case.get("mokapot", False))
+    d = tempfile.mkdtemp(prefix="pgfdr_c10cli_")
+    try:
+        paths = render(case, d)
+        out = os.path.join(d, "proteinGroups.txt")
+        cmd = [lib.PY, "-m", "picked_group_fdr", "--methods", case["method"], CLI_FLAG[fmt], *paths,
+               "--protein_groups_out", out, "--suppress_missing_peptide_warning"]
+        mp = []
+        for k, m in enumerate(case["maps"]):
+            f = os.path.join(d, f"map{k}.tsv")
+            with open(f, "w", newline="", encoding="utf-8") as fh:
+                w = csv.writer(fh, delimiter="\t")
+                for pep, ps in m:
+                    w.writerow([pep, ";".join(ps)])
+            mp.append(f)
+        if mp:
+            cmd += ["--peptide_protein_map", *mp]
+        p = subprocess.run(cmd, env=lib.impl_env(), capture_output=True, text=True, timeout=300)
+        if p.returncode != 0:
+            last = (p.stderr.strip().splitlines() or [""])[-1]
+            # degenerate runs in which no protein group has any evidence (DESIGN.md §4): bestPEP methods die in
+            # do_competition (`zip(*[])`), multPEP methods already in MultPEPScore._get_optimal_div (empty array)
+            if "not enough values to unpack" in last or (
+                "too many indices for array" in last and "_get_optimal_div" in p.stderr
+            ):
+                return {"err": "no_ranked_groups"}
+            return {"exc": "CLI", "msg": last[:300], "tb": p.stderr[-1200:]}
+        with open(out, newline="", encoding="utf-8") as fh:
+            rows = list(csv.reader(fh, delimiter="\t"))
+        col = rows[0].index("Protein IDs")
+        return {"groups": [r[col].split(";") for r in rows[1:]]}
+    finally:
+        shutil.rmtree(d, ignore_errors=True)
+
+
+def cli_ok(case):
+    """file sets the command line can take: per-file digest maps need one map file per evidence file; map
+    entries are written `peptide<TAB>p1;p2`, so every entry needs a protein"""
+    return (
+        all(ps for m in case["maps"] for _, ps in m)
+        and all(len(m) > 0 for m in case["maps"])
+        and len(case["maps"]) in (0, 1, len(case["files"]))
+    )
+
+
 def py_strops(s):
     """the string operations ingestion uses, as the implementation / CPython perform them"""
     from picked_group_fdr import helpers
@@ -303,7 +359,7 @@ def py_strops(s):
 # ------------------------------------------------------------------------------------------
 class P(Prop):
     id = "C10"
-    quick_cases = 1600
+    quick_cases = 1200
     thorough_cases = 40000
     chunk = 100
     rule = (
@@ -430,6 +486,8 @@ class P(Prop):
         maps = []
         if remap:
             nmaps = 1 if (nfiles == 1 or rng.random() < 0.65) else nfiles
+            if nfiles == 3 and rng.random() < 0.08:
+                nmaps = 2  # caller error: zip() pairs two maps with the first two files, the third file is not read
             pool = bares + [b for b in BARE if b not in bares][:1]
             for _ in range(nmaps):
                 m = []
@@ -450,6 +508,8 @@ class P(Prop):
 
         if "strops" in case:
             return {"strops": py_strops(case["strops"])}
+        if "cli" in case:
+            return run_cli(case["cli"])
         st = method_score_type(case["method"])
         fmt, remap = fmt_of(st, case.get("mokapot", False))
         if fmt == "diann" and not pandas_grid_ok():
@@ -462,13 +522,15 @@ class P(Prop):
             paths = render(case, d)
             maps = [dict((k, list(v)) for k, v in m) for m in case["maps"]] if case["maps"] else [None]
             res = evidence.parse_evidence_files(paths, maps, cfg.score_type, True)
-            pil = [[k, rat(float(v[0])), list(v[1])] for k, v in res.items()]
+            pil = [[k, "nan" if v[0] != v[0] else rat(float(v[0])), list(v[1])] for k, v in res.items()]
         finally:
             shutil.rmtree(d, ignore_errors=True)
         return {"pil": pil}
 
     # -- the model ---------------------------------------------------------------------------
     def model_request(self, case, impl_out):
+        if "cli" in case:
+            return None
         if "strops" in case:
             return {"op": "c10_strops", "strings": [case["strops"]]}
         files = [
@@ -493,9 +555,16 @@ class P(Prop):
     def oracle(self, case, impl_out):
         if "strops" in case:
             return None
+        if "cli" in case:
+            return self.cli_oracle(case["cli"], impl_out)
+        if isinstance(impl_out, dict) and "exc" in impl_out:
+            return "ingestion raised %s: %s where a peptide list was expected" % (impl_out["exc"], impl_out.get("msg", ""))
         if not isinstance(impl_out, dict) or "pil" not in impl_out:
             return "no peptide list returned: %r" % (impl_out,)
         want, _ = expected(case)
+        for k, s, ps in impl_out["pil"]:
+            if s == "nan":
+                return f"peptide {k} reported with a NaN score (rows without a PEP must be ignored)"
         got = [(k, unrat(s), ps) for k, s, ps in impl_out["pil"]]
         gk, wk = [g[0] for g in got], [w[0] for w in want]
         if sorted(gk) != sorted(wk):
@@ -519,6 +588,41 @@ class P(Prop):
                     return f"peptide {k}: protein list {ps} mixes targets and decoys"
         return None
 
+    def cli_oracle(self, case, out):
+        """purity of the table the command line wrote: every reported group is a decoy group or lists no decoy;
+        and every reported protein is one the ingested list names"""
+        if not isinstance(out, dict):
+            return "command line returned %r" % (out,)
+        if out.get("err") == "no_ranked_groups":
+            return None
+        if "groups" not in out:
+            return "command line failed: %s" % (out.get("msg"),)
+        want, _ = expected(case)
+        known = {p for _, _, ps in want for p in ps}
+        for g in out["groups"]:
+            if all(self._wellformed_id(p) for p in g):
+                if any(o_is_decoy_id(p) for p in g) and not o_decoy_list(g):
+                    return f"reported protein group {g} mixes targets and decoys"
+            for p in g:
+                if p not in known:
+                    return f"reported protein {p!r} is not listed by any ingested peptide (known: {sorted(known)})"
+        return None
+
+    # signature predicate of the finding fixes/C10-two-peptide-digest-map (for known_findings.json, should the
+    # repair not be applied): the method remaps, some digest map holds exactly two peptides, ingestion dies
+    # with KeyError: 0 in digest.get_proteins
+    def two_peptide_digest_map(self, case, impl_out, rec=None):
+        if "cli" in case or "strops" in case:
+            return False
+        _, remap = fmt_of(method_score_type(case["method"]), case.get("mokapot", False))
+        return (
+            remap
+            and any(len(m) == 2 for m in case["maps"])
+            and isinstance(impl_out, dict)
+            and impl_out.get("exc") == "KeyError"
+            and impl_out.get("msg") == "0"
+        )
+
     @staticmethod
     def _wellformed_id(p):
         for m in ("REV__", "rev_"):
@@ -530,7 +634,7 @@ class P(Prop):
 
     # -- bookkeeping -------------------------------------------------------------------------------
     def nontrivial(self, case, impl_out):
-        if "strops" in case:
+        if "strops" in case or "cli" in case:
             return False
         want, info = expected(case)
         return bool(want) and info["scored"] > len(want)
@@ -538,6 +642,8 @@ class P(Prop):
     def features(self, case, impl_out):
         if "strops" in case:
             return ["strops"]
+        if "cli" in case:
+            return ["cli"]
         st = method_score_type(case["method"])
         fmt, remap = fmt_of(st, case.get("mokapot", False))
         want, info = expected(case)
@@ -545,7 +651,7 @@ class P(Prop):
         nrows = sum(len(r) for r in case["files"])
         f.append("rows=%s" % (nrows if nrows < 10 else "10+"))
         if len(case["maps"]) > 1:
-            f.append("map_per_file")
+            f.append("map_per_file" if len(case["maps"]) == len(case["files"]) else "map_count_mismatch")
         for k in ("unknown", "purged", "emptied", "nan", "ties"):
             if info[k]:
                 f.append("has_" + k)
@@ -558,6 +664,11 @@ class P(Prop):
         return f
 
     def shrink(self, case):
+        if "cli" in case:
+            for c in self.shrink(case["cli"]):
+                if cli_ok(c):
+                    yield {"cli": c}
+            return
         if "strops" in case:
             s = case["strops"]
             for i in range(len(s)):
@@ -612,4 +723,32 @@ class P(Prop):
                 fails.append({"case": {"strops": s}, "why": None, "disagree": {"impl": want, "model": o}})
                 if len(fails) >= 3:
                     break
-        return {"evaluations": len(strings), "failures": fails, "info": {"string_ops_compared": len(strings)}}
+        # the same kind of file sets through the real command line: purity of the written table
+        ncli = 0 if ctx.get("replay") else (6 if ctx["tier"] == "quick" else 160)
+        crng = random.Random(ctx["seed"] * 104729 + 5)
+        cases = []
+        while len(cases) < ncli:
+            c = self.gen_case(crng, ctx["tier"])
+            if cli_ok(c) and sum(len(f) for f in c["files"]) > 0:
+                cases.append(c)
+        stats = {"tables": 0, "no_ranked_groups": 0, "groups": 0, "decoy_groups": 0}
+        if cases:
+            from concurrent.futures import ThreadPoolExecutor
+
+            with ThreadPoolExecutor(max_workers=8) as ex:
+                outs = list(ex.map(lambda c: lib._safe(run_cli, c), cases))
+            for c, o in zip(cases, outs):
+                why = self.cli_oracle(c, o)
+                if isinstance(o, dict) and "groups" in o:
+                    stats["tables"] += 1
+                    stats["groups"] += len(o["groups"])
+                    stats["decoy_groups"] += sum(1 for g in o["groups"] if o_decoy_list(g))
+                elif isinstance(o, dict) and o.get("err"):
+                    stats["no_ranked_groups"] += 1
+                if why is not None and len(fails) < 3:
+                    fails.append({"case": {"cli": c}, "impl": o, "why": why})
+        return {
+            "evaluations": len(strings) + len(cases),
+            "failures": fails,
+            "info": {"string_ops_compared": len(strings), "cli_runs": len(cases), "cli": stats},
+        }
